@@ -180,6 +180,21 @@ func runWorkload(wl workload, seed int64, scale int) (*childResult, error) {
 		go func() {
 			defer wg.Done()
 			rng := rand.New(rand.NewSource(seed*1000 + int64(g)))
+			// where nothing calls the entries (list readers only) every fifth registration passes a NIL handler: stored and
+			// listed like any other (a new name first registered that way and properly later must still be listed once)
+			listOnly := len(wl.Readers) > 0
+			for _, r := range wl.Readers {
+				if r != "list" {
+					listOnly = false
+				}
+			}
+			register := func(name string, v, x int) {
+				if listOnly && x%5 == 0 {
+					e.prepareNil(wl.Kind, name, v, x)()
+					return
+				}
+				e.register(wl.Kind, name, v, x)
+			}
 			ver := map[string]int{}
 			next := func(l *nameLog) int { ver[l.name]++; return ver[l.name] + 1 }
 			for !stop.Load() {
@@ -192,7 +207,7 @@ func runWorkload(wl workload, seed int64, scale int) (*childResult, error) {
 				l := churn[g][rng.Intn(len(churn[g]))]
 				if !wl.Throttle {
 					// maximum pressure, nothing logged; keep names are never touched
-					e.register(wl.Kind, l.name, next(l), x)
+					register(l.name, next(l), x)
 					continue
 				}
 				switch {
@@ -200,7 +215,7 @@ func runWorkload(wl workload, seed int64, scale int) (*childResult, error) {
 					// first registration wins, a duplicate is refused (the binding stays)
 					first := len(l.w) == 1
 					s := tick()
-					e.register(wl.Kind, l.name, next(l), x)
+					register(l.name, next(l), x)
 					en := tick()
 					if first {
 						l.w = append(l.w, wlog{s, en, ver[l.name] + 1})
@@ -231,12 +246,12 @@ func runWorkload(wl workload, seed int64, scale int) (*childResult, error) {
 					k := keep[g][rng.Intn(len(keep[g]))]
 					v := next(k)
 					s := tick()
-					e.register(wl.Kind, k.name, v, x)
+					register(k.name, v, x)
 					k.w = append(k.w, wlog{s, tick(), v})
 				default:
 					v := next(l)
 					s := tick()
-					e.register(wl.Kind, l.name, v, x)
+					register(l.name, v, x)
 					l.w = append(l.w, wlog{s, tick(), v})
 				}
 			}
@@ -484,6 +499,9 @@ func runRaceWorkload(wl workload, seed int64, scale int) (*childResult, error) {
 				go func() {
 					defer wg.Done()
 					call := e.prepare(wl.Kind, name, w+1, w+2*(w%2)) // resources: RegisterResource and RegisterResources mixed
+					if w == 2 {
+						call = e.prepareNil(wl.Kind, name, w+1, r) // one of the racing callers passes a nil handler (nothing is called here)
+					}
 					if r%2 == 1 {
 						<-gate
 					} else {
